@@ -23,7 +23,7 @@ ANCHOR_FILES = ['cirbo/core/circuit/circuit.py', 'cirbo/core/circuit/validation.
 ASSUMPTIONS = ['own reachability closure / DFS over the operand relation is the definition of reachable / cyclic']
 REQUIRED = {'mon:top_sort.checked': 200, 'mon:dfs.checked': 500, 'mon:bfs.checked': 500,
             'mon:check_circuit_has_no_cycles.checked': 100, 'cycle:raised_expected': 20, 'cycle:clean_expected': 20,
-            'cycle:unreachable_cycle': 3, 'peeking_hooks': 200, 'cycle:explicit_start_lists': 200}
+            'cycle:unreachable_cycle': 3, 'peeking_hooks': 200, 'cycle:explicit_start_lists': 200, 'composed_circuits': 100}
 
 CUR = {'ctx': None, 'case': None}
 
@@ -159,6 +159,11 @@ def _is_wf_dag(self):
                 want.setdefault(x, []).append(l)
         for l in net.gates:
             if sorted(self.get_gate_users(l)) != sorted(want.get(l, [])):
+                if CUR.get('public_only'):
+                    # the workload made this object through public calls only: a stale users index is the library's own
+                    # doing and does not take the circuit out of "all circuits"
+                    CUR['ctx'].count('stale_users_index_on_public_object')
+                    return net
                 return None
         return net
     except Exception:
@@ -338,6 +343,7 @@ def check_case(case, ctx):
     from cirbo.core.circuit import Circuit
     from cirbo.core.circuit import validation
     CUR['case'] = case
+    CUR['public_only'] = True
     net = netgen.from_description(case['net'])
     rng = random.Random(case.get('rseed', 0))
     try:
@@ -351,6 +357,19 @@ def check_case(case, ctx):
             CUR['case'] = case
             net = refsem.net_of(c)
         ctx.count('edited_circuits')
+    if case.get('compose') is not None:
+        # circuits the library itself assembled (connect / extend / add in both directions, named blocks, prefixes)
+        from vt.props import c10
+        crng = random.Random(case['compose'])
+        with monitor.suspended():
+            for step in range(crng.randint(1, 2)):
+                try:
+                    d = c10._gen_step(crng, refsem.net_of(c), step)
+                    c10._apply(c, d)
+                except Exception as e:
+                    ctx.count('compose_step_refused:' + type(e).__name__)
+            net = refsem.net_of(c)
+        ctx.count('composed_circuits')
     sh = refsem.structural_hash(net)
     labels = list(net.gates)
     users = {}
@@ -467,7 +486,8 @@ def gen_case(rng, spec):
     shape = rng.choice(netgen.SHAPES)
     net = netgen.rand_net(rng, shape=shape, max_in=5, max_g=spec.get('max_g', 14), max_arity=4, const_operands=False)
     case = {'kind': 'random', 'shape': shape, 'net': netgen.describe(net), 'rseed': rng.getrandbits(32),
-            'shuffle': rng.random() < 0.3, 'edited': rng.random() < 0.3}
+            'shuffle': rng.random() < 0.3, 'edited': rng.random() < 0.3,
+            'compose': rng.getrandbits(32) if rng.random() < 0.25 else None}
     if spec.get('kind') == 'deep':   # a long dependency chain
         case.update(net=netgen.deep_description(rng, spec['depths']), shape='deep', shuffle=False, edited=False, cyclic=False)
     return case
